@@ -438,4 +438,9 @@ pub fn vx_min_u8(a: u8, b: u8) -> (r: u8) ensures r == (if a <= b { a } else { b
 /// whole seconds of a duration (floor); uninterpreted
 pub uninterp spec fn dur_secs(d: std::time::Duration) -> u64;
 pub assume_specification [std::time::Duration::as_secs] (d: &std::time::Duration) -> (r: u64) ensures r == dur_secs(*d);
+
+/// the text a Duration argument is written as (seconds with three decimals); uninterpreted. ASSUMED: digits and one dot only
+pub uninterp spec fn dur_arg_text(d: std::time::Duration) -> Seq<char>;
+pub broadcast axiom fn dur_arg_text_chars(d: std::time::Duration)
+    ensures (#[trigger] dur_arg_text(d)).len() > 0, forall|i: int| 0 <= i < dur_arg_text(d).len() ==> ('0' <= #[trigger] dur_arg_text(d)[i] && dur_arg_text(d)[i] <= '9') || dur_arg_text(d)[i] == '.';
 }
